@@ -363,37 +363,61 @@ def _leaf_branch_instances(ctx, r, ri, g, sl):
     branches = [n for n in walk_local(ri.node) if isinstance(n, ast.If) and _is_len1_test(n.test)]
     C.require(branches, "remove_ind: leaf branch (len(node) == 1) not found")
     accesses = C.info_key_accesses(ri)
-    for br in branches:
-        inside = set()
-        for st in br.body:
-            inside.update(id(x) for x in ast.walk(st))
-        whole = False
+    aliases = C.info_aliases(ri)
+
+    def stmt_effect(st):
+        """(whole reset?, keys dropped) by one simple statement"""
+        whole, D = False, set()
+        ids = {id(x) for x in ast.walk(st)}
         for call, res in ctx.r.calls_in(ri):
-            if id(call) in inside and any(_whole_reset(ctx, c) for c in res.callees):
+            if id(call) in ids and any(_whole_reset(ctx, c) for c in res.callees):
                 whole = True
-        for n in walk_local(ri.node):
-            if id(n) in inside and isinstance(n, ast.Call) and isinstance(n.func, ast.Attribute) \
-                    and n.func.attr == "clear" and C.is_info_entry(n.func.value, C.info_aliases(ri)):
+        for n in ast.walk(st):
+            if isinstance(n, ast.Call) and isinstance(n.func, ast.Attribute) and n.func.attr == "clear" \
+                    and C.is_info_entry(n.func.value, aliases):
                 whole = True
-        key = ctx.key(ri, "C02-LISTS", "leaf")
-        if whole:
-            r.ok(key, C.loc(ri, br), "sliced leaf: whole cache entry reset", leaf_keys=sorted(need))
-            continue
-        D = set()
         for kind, k, nodeexpr, n, val, keyexpr in accesses:
-            if id(n) not in inside or kind not in ("pop", "del", "store"):
-                continue
-            ks = [k] if isinstance(k, str) else (C.loop_key_values(ctx, ri, keyexpr, n) or [])
-            D.update(ks)
-        missing = sorted(need - D)
-        if missing:
-            for m in missing:
+            if id(n) in ids and kind in ("pop", "del", "store"):
+                ks = [k] if isinstance(k, str) else (C.loop_key_values(ctx, ri, keyexpr, n) or [])
+                D.update(ks)
+        return whole, D
+
+    def paths(stmts):
+        """[(whole, dropped keys)] for every path through a statement list (ifs are
+        split; loops and other compound statements are taken as one step)"""
+        acc = [(False, frozenset())]
+        for st in stmts:
+            if isinstance(st, ast.If):
+                a = paths(st.body)
+                b = paths(st.orelse) if st.orelse else [(False, frozenset())]
+                acc = [(w1 or w2, d1 | d2) for w1, d1 in acc for w2, d2 in a + b]
+            else:
+                w, d = stmt_effect(st)
+                acc = [(w1 or w, d1 | d) for w1, d1 in acc]
+            if len(acc) > 64:
+                raise AnalysisError("remove_ind: leaf branch too branchy to enumerate")
+        return acc
+
+    for br in branches:
+        key = ctx.key(ri, "C02-LISTS", "leaf")
+        # the paths on which the leaf is touched at all (something is dropped/rewritten or
+        # the leaf is registered as sliced): each must drop everything slice-dependent
+        bad = None
+        n_paths = 0
+        for whole, D in paths(br.body):
+            if not whole and not D:
+                continue  # leaf does not carry the index on this path
+            n_paths += 1
+            if not whole and need - D:
+                bad = (D, sorted(need - D))
+        if bad is not None:
+            for m in bad[1]:
                 r.violation(f"{key}::{m}", C.loc(ri, br),
                             f"sliced leaf keeps its cached '{m}', which depends on the sliced set "
-                            f"(leaf branch drops only {sorted(D)})")
+                            f"(a path through the leaf branch drops only {sorted(bad[0])})")
         else:
-            r.ok(key, C.loc(ri, br), "sliced leaf: every slice-dependent leaf key dropped",
-                 dropped=sorted(D))
+            r.ok(key, C.loc(ri, br), f"sliced leaf: every slice-dependent leaf key dropped or the whole "
+                 f"entry reset on each of {n_paths} path(s)", leaf_keys=sorted(need))
 
 
 def rule_lists(ctx):
@@ -919,6 +943,16 @@ def rule_reorder(ctx):
     return r
 
 
+def rule_slicearr(ctx):
+    """Shared with C06-APPLY: a sliced/projected tree contracts to the right value only
+    if the arrays are cut on every axis the tree considers removed."""
+    from .c06 import rule_apply as src
+
+    return C.reuse_rule(ctx, src, "C06-APPLY", "C02-SLICEARR",
+                        "arrays are sliced on every axis of every sliced index",
+                        lambda i: True, 2)
+
+
 # ---- NODE ------------------------------------------------------------------
 
 
@@ -1250,5 +1284,5 @@ def rule_copy(ctx):
 
 
 RULES = [rule_keys, rule_deps, rule_lists, rule_closure, rule_reorder, rule_root, rule_cores, rule_corekey,
-         rule_topo, rule_multpair, rule_rebuild, rule_node,
+         rule_topo, rule_multpair, rule_rebuild, rule_slicearr, rule_node,
          rule_presurv, rule_pure, rule_copy, rule_preproc]
